@@ -1,5 +1,5 @@
 (** C06 — the failure of one actor is contained and visible as errors. Statements only. *)
-From Hannibal Require Import Model.Sys Inv.Mailbox Inv.Loop Inv.C06 Inv.C03 Inv.C14 Chk.C03 Chk.C14.
+From Hannibal Require Import Model.Sys Inv.Mailbox Inv.Loop Inv.C06 Inv.C03 Inv.C14 Chk.C03 Chk.C14 Inv.SysOk Inv.Reach Inv.C10 Inv.C02e.
 
 (** What the end of an actor's task does — on every path: return, panic in any callback or
     handler, fatal timeout, cancellation at any await point — and what it leaves alone:
@@ -31,3 +31,24 @@ Print Assumptions C06_dead_is_silent.
 Theorem C06_seen_as_stopped : forall tr, accepts tr = true -> chk_C14 tr = true.
 Proof. exact accepts_chk_C14. Qed.
 Print Assumptions C06_seen_as_stopped.
+
+(** Over whole executions: in every state reachable by any trace, a terminated actor - however
+    it ended - is announced (its notifier is resolved or dropped), has its exit recorded, its
+    mailbox closed and empty with nobody parked on it, and every one of its timers aborted ... *)
+Theorem C06_terminated_actor_stays_contained :
+  forall tr s a x, run init tr = Acc s -> actors s a = Some x -> a_phase x = PhDone ->
+  a_notif x <> NArmed /\ a_exit x <> None /\ a_queue x = [] /\ a_parked x = [] /\ a_rx x = false
+  /\ Forall (fun t => t_aborted t = true) (a_timers x).
+Proof.
+  intros tr s a x H Hx Hd.
+  destruct (ci_dead _ (C02_inv_run _ _ _ C02_inv_init H) _ _ Hx Hd) as [N X Q P R].
+  repeat split; auto. exact (done_aborted_run _ _ _ done_aborted_init H _ _ Hx Hd).
+Qed.
+Print Assumptions C06_terminated_actor_stays_contained.
+
+(** ... and no event of its loop task - no dequeue, no handler or callback entry or end, no
+    stream item, no second end of the task - is ever accepted again. *)
+Theorem C06_terminated_actor_is_silent :
+  forall s e s' a x, step s e = Acc s' -> ev_actor e = Some a -> actors s a = Some x -> a_phase x = PhDone -> False.
+Proof. exact done_is_silent. Qed.
+Print Assumptions C06_terminated_actor_is_silent.
